@@ -4,7 +4,7 @@
 cd /verif
 for d in seeded/*/ selftest/mustfail/*.diff; do
   case "$d" in
-    seeded/*) name=$(basename $d); patch=/verif/$d/patch.diff; prop=$(python3 -c "import json;print(json.load(open('$d/meta.json'))['breaks_property'])");;
+    seeded/*) name=$(basename $d); patch=/verif/$d/patch.diff; prop=$(python3 -c "import json;m=json.load(open('$d/meta.json'));print(m.get('check_property',m['breaks_property']))");;
     *) name=$(basename $d .diff); patch=/verif/$d; prop=${name%%-*};;
   esac
   [ -n "${1:-}" ] && [[ "$name" != *"$1"* ]] && continue
